@@ -7,7 +7,8 @@ from . import servelayer as L
 
 PROPS = ("C14", "C15", "C16", "C17", "C18", "C19")
 PROFILES = {"C14": ["mixed", "history", "ttl"], "C15": ["mixed", "ttl", "history"], "C16": ["mixed", "restart", "history"],
-            "C17": ["restart", "mixed", "services", "cmd"], "C18": ["gen", "gen", "services"], "C19": ["cmd", "cmd", "services"]}
+            "C17": ["restart", "mixed", "services", "cmd"], "C18": ["gen", "gen", "services"], "C19": ["cmd", "cmd", "services"],
+            "C06": ["services", "mixed", "cmd", "gen"], "C10": ["cmd", "services", "mixed", "gen"]}
 
 
 def signature_of(sc, item):
@@ -84,7 +85,9 @@ def run(prop, tier, seed, replay=None):
         live_total = sum(len(e["tap"]) for e in r["res"]["epochs"])
         started = sum(1 for e in r["res"]["epochs"] for f in e["tap"] if L.unhx(f["topic"]).endswith(".registered"))
         n_inst += started
-        if started and live_total > 6:
+        n_inst += sum(1 for e in r["res"]["epochs"] for f in e["tap"]
+                      if L.unhx(f["topic"]).endswith((".complete", ".start")) or (L.unhx(f["topic"]).endswith(".error") and "frame_id" in (f.get("meta") or "")))
+        if live_total > 6:
             n_nontrivial += 1
         for it in r["fnd"]:
             if prop not in it["props"]:
@@ -96,7 +99,7 @@ def run(prop, tier, seed, replay=None):
                 violations.append((r, it))
 
     rc, lines, replay_path = 0, [], None
-    for kf in {k["id"]: k for k in known_hit}.values():
+    for kf in {json.dumps(k["signature"], sort_keys=True): k for k in known_hit}.values():
         lines.append(f"KNOWN-FINDING: property={prop} {kf['what']}")
     if violations:
         r, it = violations[0]
@@ -139,7 +142,8 @@ def run(prop, tier, seed, replay=None):
                 "recorded by a tap. Per started instance the Lean model (`subscription`, `run`) is run over what the instance was handed and "
                 "its output compared with the frames stamped with its id; the serve loop's announcements are compared with "
                 "`announcements` (start-up compaction + live registrations); the subscribe/announce order is read from the sync points. "
-                "evaluations = handler instances replayed; non-trivial = a scenario with at least one started instance and more than 6 frames",
+                "commands and generators: per call / per spawn the frames stamped with its id are compared with `cmdServe` / `genRun` + `lifecycle` / `duplexInput`. "
+                "evaluations = handler instances + command calls + generator lifecycles replayed; non-trivial = a scenario whose followers were handed more than 6 frames",
         "step_histogram": dict(hist),
         "findings_checked": sum(len(r["fnd"]) for r in results),
         "known_findings_hit": [k["id"] for k in known_hit],
